@@ -627,8 +627,18 @@ def run_case(case):
 
         def notify(self, event):
             self.events.append((event.event_type.name, event.content))
+            if event.event_type.name == "INITIALIZED_EVENT":
+                # the statistic announces that it has been reset: at this moment it reports no observations
+                st_ = event.content
+                try:
+                    self.at_init.append((st_.n(), st_.count() if hasattr(st_, "count") else None))
+                except Exception as e:                            # noqa: BLE001
+                    self.at_init.append(("raises", type(e).__name__))
+
+        at_init = []
 
     out = Outcome()
+    Rec.at_init = []
     variant, via = case["variant"], case.get("via", "register")
     counter = "counter" in variant
     out.label("variant=" + variant, "class=" + str(case.get("cls")))
@@ -760,6 +770,8 @@ def run_case(case):
                 stat.initialize()
             except Exception as e:                                # noqa: BLE001
                 out.fail("initialize-raises:" + type(e).__name__, repr(e))
+            if rec is not None and any(x[0] != 0 or x[1] not in (None, 0) for x in rec.at_init):
+                out.fail("publish:initialized-event-before-reset", {"n_and_count_seen_by_listener": rec.at_init[-3:]})
             if orc.n > 0:
                 pending_init = True
             orc.reset()
@@ -890,6 +902,8 @@ def _run_counter(out, case, stat, rec, feed):
                 stat.initialize()
             except Exception as e:                                # noqa: BLE001
                 out.fail("initialize-raises:" + type(e).__name__, repr(e))
+            if rec is not None and any(x[0] != 0 or x[1] not in (None, 0) for x in rec.at_init):
+                out.fail("publish:initialized-event-before-reset", {"n_and_count_seen_by_listener": rec.at_init[-3:]})
             if total:
                 marker = True
             n = count = 0
